@@ -5,6 +5,7 @@ import (
 	"sort"
 	"strconv"
 	"strings"
+	"time"
 
 	"verifmc/drv"
 	"verifmc/engine"
@@ -462,6 +463,7 @@ func mpPlans(c *engine.Ctx) ([]drv.Config, *mpUniverse, int) {
 
 func runMP(c *engine.Ctx, prop string) {
 	cfgs, u, depth := mpPlans(c)
+	c.SpecBudget = c.Budget() / time.Duration(len(cfgs)+1)
 	// same-key uploads whose ids cross the 9 -> 10 boundary (start from a non-initial uploader)
 	{
 		cfg := drv.Config{Kind: drv.Mem}
